@@ -92,6 +92,25 @@ CHECKS.update({
    note=NET_NOTE),
 })
 
+CHECKS.update({
+ "C10": dict(engine="grid+net", cat="exploration", ref="§4 C10, §2.4",
+   technique="exhaustive boundary-grid enumeration of header fields x bytes available x store state through the real decode/handle/encode path under catch_unwind (overflow checks on), plus a socket sub-grid with virtual-time silence",
+   text="About 0.5 M distinct headers (opcode 0..255 x key/extras/body lengths around every limit x bytes available x CAS extremes x stored value x incr/decr operand extremes, wrong magic/data type): no panic, the decoder makes progress or waits or fails, a header invalid by the property's list is never executed (no success response, store unchanged), buffer capacity stays below limit+24+4096; 19 k of them replayed over real TCP with 61 s of virtual silence: no task panic, connection closed, server still serving. Exhaustive over the grid, not over all byte strings (random bytes are sampling and outside this technique).",
+   note="Trusted: the harness profile really has overflow-checks on (profile.dev in mc/Cargo.toml); panic capture via a process-wide hook. " + NET_NOTE),
+ "C11": dict(engine="seq", cat="model_checking", ref="§4 C11, §2.3",
+   technique="explicit-state BFS over histories of every opcode x every outcome on the real code; every encoded response re-parsed by an independent parser",
+   text="62-command alphabet (every opcode, loud and quiet, hit/miss/exists/not-found/too-large/non-numeric, 250-byte and binary keys, opaques 0/0xabad1dea/0xffffffff/0x80000001), all histories to the bound: every response frame has magic 0x81, opcode and opaque echoed, data type 0, status in the table, body length = extras+key+value, 4 extras on hits, key only for getk, 8 bytes for counters, text on errors; exactly one frame per loud request. The same rules are applied to every response of the C12 socket runs.",
+   note=SEQ_NOTE),
+ "C19": dict(engine="seq-pair", cat="model_checking", ref="§4 C19, §2.3",
+   technique="explicit-state BFS over pairs of real systems (loud run, toggled run); the loud/quiet toggle is part of the alphabet so every subset of positions is covered",
+   text="All histories to the bound x every subset of positions switched to quiet: after every command both stores hold identical items (value, flags, expiry) with isomorphic CAS relations; errors identical apart from the opcode, quiet success and quiet get miss silent, quiet hit carries the same payload.",
+   note=SEQ_NOTE),
+ "C20": dict(engine="cfg", cat="exploration", ref="§4 C20, §2.6",
+   technique="exhaustive configuration-grid enumeration: one real server process per CLI configuration, identical programs, transcript comparison",
+   text="Grid runtime-type x threads {1,2,8} x eviction x port x max-item-size x connection-limit (quick: covering subset of 8, thorough: all 96): byte-identical transcripts of the C01/C07 spanning-tree programs across configurations and agreement with the in-process run, item-size and connection limits enforced as configured (8 x limit simultaneous connections), one real-time TTL probe per configuration.",
+   note="Trusted: timing enters only as patience (5 s for positive, 300 ms for negative expectations); servers are started by `mc serve` = cli::parser::parse + runtime_builder::create_memcrs_server + block_on(system_timer.run()), i.e. memcrsd's main() minus logging."),
+})
+
 PENDING = {}
 
 def main():
@@ -129,6 +148,8 @@ def main():
              "kind_free_text": "explicit-state BFS over command histories; each transition executes the real code; reference model in lock-step"},
             {"name": "sched", "path": "/verif/mc/src/sched.rs", "serves_properties": [k for k, v in CHECKS.items() if "sched" in v["engine"]],
              "kind_free_text": "stateless preemption-bounded DFS over thread schedules of the real store (shuttle engine + own scheduler + lock-instrumented dashmap)"},
+            {"name": "grid", "path": "/verif/mc/src/check_c10.rs", "serves_properties": ["C10"], "kind_free_text": "exhaustive input-shape grid at the decoder+handler, in-process and over a socket"},
+            {"name": "cfg", "path": "/verif/mc/src/check_c20.rs", "serves_properties": ["C20"], "kind_free_text": "one server subprocess per CLI configuration, identical client programs, transcript comparison"},
             {"name": "net", "path": "/verif/mc/src/net.rs", "serves_properties": [k for k, v in CHECKS.items() if "net" in v["engine"]],
              "kind_free_text": "deterministic exhaustive scenario enumeration against the real TCP server on a paused current_thread tokio runtime (loopback sockets, virtual time)"},
         ],
